@@ -4,7 +4,7 @@
    with library-generated names for the inner simplices) and every applicable request; the
    unbounded statement is tested by the oracle (evidence: tested_only). *)
 From Coq Require Import String ZArith Bool Arith List.
-From SV Require Import Names NamesFacts Rep Complex Homology Filtration Gen World Small Sweeps RepInv Shapes AddEffect CopyFaithful DelEffect.
+From SV Require Import Names NamesFacts Rep Complex Homology Filtration Gen World Small Sweeps RepInv Shapes AddEffect CopyFaithful DelEffect Duality DeleteEffect.
 
 (* building by basis gives exactly the non-empty subsets of the given simplices, a well-formed
    complex whose views agree *)
@@ -83,3 +83,15 @@ Proof.
   - apply (d_cofaces r s k i Hinv As t Hne). unfold containsSimplex. now rewrite At.
 Qed.
 Print Assumptions C02_remove_one_exact_effect.
+
+(* EVERY HISTORY: deleteSimplex(s) of a simplex of the complex never fails, removes exactly the star
+   of s -- s and whatever is reached from s by coface steps -- and every surviving simplex keeps
+   its order and exactly its faces *)
+Theorem C02_delete_exact_effect :
+  forall r s r' x, sinv r -> containsSimplex r s = true -> deleteSimplex r s = (r', x) ->
+  x = Ok tt /\ sinv r' /\
+  (forall t, containsSimplex r' t = true <-> containsSimplex r t = true /\ ~ exists j, cchain r j s t) /\
+  (forall t, containsSimplex r' t = true ->
+     orderOf r' t = orderOf r t /\ forall u, In u (faces r' t) <-> In u (faces r t)).
+Proof. exact deleteSimplex_effect. Qed.
+Print Assumptions C02_delete_exact_effect.
